@@ -157,10 +157,15 @@ CALLBACKS = {
 # calls of values: "<function>:<callee source text>" -> {"calls": [package functions], "raises": [...], "why"}
 DYNAMIC = {
     "_loaders_dumpers.load_value:loader": {
-        "calls": ["_loaders_dumpers.yaml_load"], "raises": [],
-        "why": "loaders[mode] with mode = parser_mode; the IR is generated for parser_mode='yaml' (the default). "
-               "json/toml/jsonnet/omegaconf loaders are outside the statement",
+        "calls": ["_loaders_dumpers.yaml_load", "_loaders_dumpers.json_load"], "raises": [],
+        "why": "loaders[mode] with mode = parser_mode: yaml (the default) or json. The handler expressions get_loader_exceptions() "
+               "are evaluated for yaml; toml/jsonnet/omegaconf loaders are outside the statement",
     },
+    "_loaders_dumpers.json_load:json.loads": {
+        "calls": [], "raises": [],
+        "why": "parser_mode='json': the documented failure class JSONDecodeError is what get_loader_exceptions() returns in that mode, "
+               "i.e. it is caught exactly where YAMLError is caught in the yaml-mode IR; it is therefore not raised as a separate class "
+               "here (the handlers of this IR are the yaml ones). Anything else json.loads raises is an IMPLICIT_SITES matter"},
     "_core.ArgumentParser._apply_actions:skip_fn": {"calls": [], "raises": [], "why": "only passed by add_sub_defaults: a lambda testing isinstance"},
     "_core.ArgumentParser._check_value_key:action.type": {
         "calls": [], "raises": [VE, TE, "argparse.ArgumentTypeError"],
@@ -379,6 +384,10 @@ IMPLICIT_SITES = [
      "class_path: discard_init_args_on_class_path_change / prev_val.init_args assume a subclass-typed option",
      {"shape": "basic", "entry": "parse_args",
       "input": ["--any={class_path: calendar.Calendar, init_args: {firstweekday: 1}}", "--any={class_path: nomod.X}"]}),
+    ("_loaders_dumpers.json_load", VE,
+     "parser_mode='json': an integer literal longer than CPython's 4300-digit int<->str limit makes json.loads raise a plain ValueError "
+     "(not JSONDecodeError), which get_loader_exceptions('json') does not anticipate",
+     {"shape": "json", "entry": "parse_string", "input": "9" * 4400}),
     ("_actions._ActionPrintConfig.__call__", "builtins.IndexError",
      "argparse hands `--print_config=--` to the action as the empty list: value[0] -> list index out of range",
      {"shape": "basic", "entry": "parse_args", "input": ["--print_config=--"]}),
@@ -429,6 +438,7 @@ FINDING_KEYS = {
     20: "subcommand-value-not-mapping",
     21: "any-class-path-override",
     22: "print-config-value-empty",
+    23: "json-int-digit-limit",
 }
 # key -> [(function, class or superclass, kind prefix, modes)]; modes: "t" = only when exit_on_error=True, "f" = only
 # when False, "tf" = both. A site is a finding site only if it ESCAPES an entry point and its class is not the
@@ -457,6 +467,7 @@ FINDING_SITES = {
                                      ("_actions._ActionSubCommands.__call__", AE, "implicit: [subcommand]", "tf"),
                                      ("_core.ArgumentParser._check_value_key", AE, "implicit: [subcommand]", "tf")],
     "any-class-path-override": [("_typehints.ActionTypeHint.__call__", AE, "implicit", "tf")],
+    "json-int-digit-limit": [("_loaders_dumpers.json_load", VE, "implicit", "tf")],
     "print-config-value-empty": [("_actions._ActionPrintConfig.__call__", "builtins.IndexError", "implicit", "tf")],
     "list-option-given-mapping": [("_typehints.ActionTypeHint._check_type", "builtins.RuntimeError", "implicit", "tf")],
     "overflow-error": [("_typehints.adapt_typehints", "builtins.OverflowError", "implicit", "tf"),
